@@ -100,6 +100,9 @@ def run_check(prop, tier, seed):
     mod = importlib.import_module(module)
     opts = explore.Opts(tier, seed)
     hs = mod.harnesses(tier)
+    only = os.environ.get("VERIF_ONLY")      # development aid: run a subset of the harnesses (evidence is not written)
+    if only:
+        hs = [h for h in hs if any(h.name.startswith(o) for o in only.split(","))]
     cov = {"funcs": set(), "lines": set(), "models": set()}
     summaries = []
     # library-model differential suite (DESIGN 2.8.2)
@@ -167,7 +170,8 @@ def run_check(prop, tier, seed):
             "samples": samples[:12] or [{"note": "no completed path"}],
             "obligations": total(lambda s: s.obligations),
             "discharged": total(lambda s: s.discharged),
-            "inconclusive": total(lambda s: s.inconclusive),
+            # solver-unknown obligations plus counterexamples that did not reproduce on the real code
+            "inconclusive": total(lambda s: s.inconclusive + len(s.unconfirmed)),
             "exhaustive": all(s.exhaustive for s in summaries),
             "paths_explored": total(lambda s: s.paths),
             "path_status": {s.harness: s.status for s in summaries},
@@ -204,8 +208,9 @@ def run_check(prop, tier, seed):
         "violations": n_viol,
     }
     os.makedirs(os.path.join(VERIF_DIR, "evidence"), exist_ok=True)
-    with open(os.path.join(VERIF_DIR, "evidence", "%s.json" % prop), "w") as f:
-        json.dump(evidence, f, indent=1, sort_keys=True)
+    if not only:
+        with open(os.path.join(VERIF_DIR, "evidence", "%s.json" % prop), "w") as f:
+            json.dump(evidence, f, indent=1, sort_keys=True)
 
     for sig, c in sorted(known_hit.items()):
         print("KNOWN-FINDING: property=%s %s (%s)" % (prop, open_sigs[sig].get("what", sig), sig))
